@@ -345,7 +345,7 @@ func (p *Path) checkAssert(label string, c *smt.Term) {
 	// sat: look past known-finding classes
 	var ks []KnownClass
 	for _, k := range p.known {
-		if k.Label == label {
+		if k.Label == label || k.Label == "*" {
 			if _, ok := p.classes[k.Class]; ok {
 				ks = append(ks, k)
 			}
